@@ -582,6 +582,8 @@ package gohlslib
 //@   ensures result == nil ==> (s.variant != MuxerVariantMPEGTS ==> (s.nextPartID == old(s.nextPartID) + 1 && s.nextPart.startDTS == nextDTS))
 //@   ensures result == nil ==> cfg(s)
 //@   ensures [C03] local (result == nil && s.isLeading) ==> forall(j, (0 <= j && j < len(s.segments)) ==> s.targetDuration >= round(real(s.segments[j].getDuration()) / 1000000000.0))
+//@   ensures [C03] local result == nil ==> ((s.variant != MuxerVariantMPEGTS ==> (asF(s.nextSegment).startNTP == nextNTP && asF(s.nextSegment).startDTS == nextDTS))
+//@        && (s.variant == MuxerVariantMPEGTS ==> (asM(s.nextSegment).startNTP == nextNTP && asM(s.nextSegment).startDTS == nextDTS)))
 //@   ensures [C05,C18] local (result == nil && s.segmentDeleteCount == old(s.segmentDeleteCount) + 1 && old(len(s.segments)) >= 1) ==>
 //@        (calls("muxerServer.unregisterPath") >= 1 && (callarg("muxerServer.unregisterPath", calls("muxerServer.unregisterPath") - 1, 1) == old(s.segments[0]).getPath()
 //@         || callarg("muxerServer.unregisterPath", 0, 1) == old(s.segments[0]).getPath()))
@@ -886,6 +888,13 @@ package gohlslib
 //@   atcall muxerSegmenter.fmp4WriteSample arg1 == track && arg2 == !h.NonKeyFrame && arg4.IsNonSyncSample == h.NonKeyFrame && arg4.Payload == frame && arg4.dts == pts && arg4.ntp == ntp && arg4.PTSOffset == 0
 //@   atcall muxerSegmenter.fmp4WriteSample old(track.firstRandomAccessReceived) || arg2
 //@   atcall muxerSegmenter.fmp4WriteSample track.firstRandomAccessReceived
+// C02: a key frame whose header differs from the stored parameters in profile, bit depth or colour range is
+// delivered as a parameter change, and the stored parameters (what the next init segment declares) are the
+// key frame's (width, height and chroma subsampling go through mediacommon accessors: not expressible here)
+//@   atcall muxerSegmenter.fmp4WriteSample (arg2 && (h.Profile != old(track.Codec.(*codecs.VP9).Profile) || h.ColorConfig.BitDepth != old(track.Codec.(*codecs.VP9).BitDepth)
+//@        || h.ColorConfig.ColorRange != old(track.Codec.(*codecs.VP9).ColorRange))) ==> arg3
+//@   atcall muxerSegmenter.fmp4WriteSample arg2 ==> (track.Codec.(*codecs.VP9).Profile == h.Profile && track.Codec.(*codecs.VP9).BitDepth == h.ColorConfig.BitDepth
+//@        && track.Codec.(*codecs.VP9).ColorRange == h.ColorConfig.ColorRange)
 //@   reachable result == nil && calls("muxerSegmenter.fmp4WriteSample") == 1
 //@ end
 
